@@ -1,10 +1,11 @@
 import EgoVerif.Common.Drv
 import EgoVerif.C17.Model
 /- line protocol (one request per line):
-     `h <cfg: 7 chars 0|1> <pre> <commit 0|1> <task>*`
+     `h <cfg: 7 chars 0|1> <pre> <commit 0|1> <task>* [x<k>]`
    cfg   = rbMalformed rbEvalErr rbCondTrue rbOpErr commitErrFail clearOnCommitErr clearOnRollbackErr
    pre   = fine | decode | opcode | perm | open | begin
    task  = <kind p|c|r|b><ok 0|1><writes 0|1><locks 0|1>:<conds>     conds over e m v t f, `-` = none
+   x<k>  = the request's context is cancelled, visible from just before operation k (0-based) on
    answer `<ok|fail> <none|all|partial> <free|locked> <closed|leaked>`
      none    = nothing durable,  all = exactly the writes of every task,  partial = anything else
      locked  = a connection still inside a transaction holds the write lock
@@ -55,6 +56,14 @@ def parseTasks : List String → Option (List Task)
     | some t, some ts => some (t :: ts)
     | _, _ => none
 
+/-- the optional trailing `x<k>` -/
+def parseCancel (s : String) : Option Nat :=
+  match s.toList with
+  | 'x' :: ds => (String.ofList ds).toNat?
+  | _ => none
+
+def isCancel (s : String) : Bool := (parseCancel s).isSome
+
 def render (tasks : List Task) (r : Result) : String :=
   let st := if r.ok then "ok" else "fail"
   let ap := if r.db.committed.isEmpty then "none"
@@ -65,9 +74,11 @@ def render (tasks : List Task) (r : Result) : String :=
 
 def handle (line : String) : String :=
   match fields line with
-  | "h" :: cfg :: pre :: commit :: tasks =>
+  | "h" :: cfg :: pre :: commit :: rest =>
+    let tasks := rest.filter (fun s => !isCancel s)
+    let cancelAt := (rest.filter isCancel).head?.bind parseCancel
     match parseCfg cfg, parsePre pre, (commit.toList.head?.bind bit), parseTasks tasks with
-    | some c, some p, some k, some ts => render ts (handler c p ts k ⟨[], [], false, false, false, false⟩)
+    | some c, some p, some k, some ts => render ts (handlerCtx c p ts k cancelAt ⟨[], [], false, false, false, false⟩)
     | _, _, _, _ => "bad-input"
   | _ => "bad-op"
 
